@@ -24,6 +24,7 @@ pub fn profile(name: &str) -> Option<GenFn> {
         "mix" => genp::mix,
         "svcfaults" => genp::svcfaults,
         "droprace" => genp::droprace,
+        "timeout0" => genp::timeout0,
         _ => return None,
     })
 }
